@@ -16,6 +16,8 @@ structure Player where
   seed : Int := 0
   /-- names that have (had) an observer, polled around story-running calls -/
   observed : List String := []
+  /-- values polled when the last story-running call started outside a sliced continue -/
+  polled : List (String × Json) := []
 
 namespace Player
 
@@ -224,9 +226,13 @@ def exec (p : Player) (op : Json) (readFile : String → Option (List Char)) : J
 def run (p : Player) (op : Json) (readFile : String → Option (List Char)) : Json × Player :=
   let name := match op with | .arr (.str n :: _) => n | _ => ""
   let runsStory := ["cont", "contasync", "maximally", "eval", "reset", "path", "choose"].contains name
-  let before : List (String × Json) := match p.story with
-    | some st => if runsStory then p.observed.map (fun v => (v, optValJson (st.getVariableHost v))) else []
-    | none => []
+  let p : Player := match p.story with
+    | some st =>
+      if runsStory && !st.asyncActive then
+        { p with polled := p.observed.map (fun v => (v, optValJson (st.getVariableHost v))) }
+      else p
+    | none => p
+  let before := p.polled
   let (res, p') := p.exec op readFile
   if !runsStory then (res, p')
   else
